@@ -182,7 +182,7 @@ def main(argv=None):
     if n_total < 2 or n_pass < 2:
         # schema needs >=2 distinct non-trivial cases; fewer means the run is not evidence
         inconclusive.append(("evidence", f"only {n_pass} passing obligations"))
-    write_evidence(prop, tier, cov, assumptions, timer.s(), len(violations))
+    write_evidence(prop, tier, cov, assumptions, timer.s(), len(violations), partial=bool(a.only) or os.environ.get("VERIF_SEEDRUN") == "1")
 
     for name, rpath, keys in violations:
         log(f"VIOLATION property={prop} replay={rpath}")
